@@ -1,7 +1,1245 @@
-//! C34: not implemented yet.
+//! C34: the freelist conserves pages.
+//!
+//! The real `turdb::storage::Freelist` is driven with generated release/allocate/reopen histories
+//! over an in-memory `Storage`; a model (per-page state: held by the caller / free / handed out)
+//! is the oracle. After every operation: `allocated_was_free`, `no_double_handout`,
+//! `pages_in_range`, `no_panic`, `no_error`. At quiescent points (`Probe`): the reported
+//! `free_count()` must equal the number of successful `allocate()` calls until `None`, measured on
+//! a copy-on-write overlay of the storage with a `Freelist::with_head(head, count)` twin, so the
+//! probe never perturbs the history (`free_count_matches`).
+use crate::memstore::MemStore;
+use crate::report::{catch, panic_site, Ctx};
+use crate::rng::{fnv, Rng};
 use crate::Args;
+use eyre::{bail, Result};
+use serde_json::{json, Value};
+use std::cell::Cell;
+use std::collections::{HashMap, HashSet};
+use turdb::storage::{Freelist, Storage, TableFileHeader, TABLE_MAGIC, TRUNK_MAX_ENTRIES};
 
-pub fn run(_a: &Args) -> i32 {
-    println!("INCONCLUSIVE property=C34 reason=check not implemented yet");
-    2
+const PAGE: usize = 16384;
+const HDR: usize = 16; // PageHeader size (documented trunk layout: next_trunk at 16, count at 20, entries from 24)
+static ZERO_PAGE: [u8; PAGE] = [0u8; PAGE];
+
+// ---------------------------------------------------------------------------------------------
+// storages
+
+/// Sparse in-memory storage: pages the freelist (or the caller) never wrote are not materialised,
+/// which makes 17 000-page histories cheap natively and feasible under Miri.
+#[derive(Clone)]
+struct SparseStore {
+    n: u32,
+    pages: HashMap<u32, Box<[u8]>>,
+}
+
+impl SparseStore {
+    fn new(n: u32) -> Self {
+        SparseStore { n, pages: HashMap::new() }
+    }
+}
+
+impl Storage for SparseStore {
+    fn page(&self, p: u32) -> Result<&[u8]> {
+        if p >= self.n {
+            bail!("page {} out of bounds (page_count={})", p, self.n);
+        }
+        Ok(match self.pages.get(&p) {
+            Some(b) => &b[..],
+            None => &ZERO_PAGE[..],
+        })
+    }
+    fn page_mut(&mut self, p: u32) -> Result<&mut [u8]> {
+        if p >= self.n {
+            bail!("page {} out of bounds (page_count={})", p, self.n);
+        }
+        Ok(&mut self.pages.entry(p).or_insert_with(|| vec![0u8; PAGE].into_boxed_slice())[..])
+    }
+    fn grow(&mut self, c: u32) -> Result<()> {
+        if c > self.n {
+            self.n = c;
+        }
+        Ok(())
+    }
+    fn page_count(&self) -> u32 {
+        self.n
+    }
+    fn sync(&self) -> Result<()> {
+        Ok(())
+    }
+}
+
+/// Records what the freelist touches: page 0 (the "none" sentinel / file header page, never a
+/// freelist page) and pages beyond the end of the storage. Used to establish the *cause* of a
+/// statement-level violation, not as an assertion of its own.
+struct Tracked<S> {
+    inner: S,
+    page0: Cell<u64>,
+    oob: Cell<u64>,
+}
+
+impl<S: Storage> Tracked<S> {
+    fn new(inner: S) -> Self {
+        Tracked { inner, page0: Cell::new(0), oob: Cell::new(0) }
+    }
+    fn note(&self, p: u32) {
+        if p == 0 {
+            self.page0.set(self.page0.get() + 1);
+        }
+        if p >= self.inner.page_count() {
+            self.oob.set(self.oob.get() + 1);
+        }
+    }
+}
+
+impl<S: Storage> Storage for Tracked<S> {
+    fn page(&self, p: u32) -> Result<&[u8]> {
+        self.note(p);
+        self.inner.page(p)
+    }
+    fn page_mut(&mut self, p: u32) -> Result<&mut [u8]> {
+        self.note(p);
+        self.inner.page_mut(p)
+    }
+    fn grow(&mut self, c: u32) -> Result<()> {
+        self.inner.grow(c)
+    }
+    fn page_count(&self) -> u32 {
+        self.inner.page_count()
+    }
+    fn sync(&self) -> Result<()> {
+        Ok(())
+    }
+}
+
+/// Copy-on-write view of a storage: semantically a clone, but only the pages the probe writes are
+/// copied.
+struct Overlay<'a, S> {
+    base: &'a S,
+    dirty: HashMap<u32, Box<[u8]>>,
+    page0: Cell<u64>,
+    oob: Cell<u64>,
+}
+
+impl<'a, S: Storage> Overlay<'a, S> {
+    fn new(base: &'a S) -> Self {
+        Overlay { base, dirty: HashMap::new(), page0: Cell::new(0), oob: Cell::new(0) }
+    }
+    fn note(&self, p: u32) {
+        if p == 0 {
+            self.page0.set(self.page0.get() + 1);
+        }
+        if p >= self.base.page_count() {
+            self.oob.set(self.oob.get() + 1);
+        }
+    }
+}
+
+impl<'a, S: Storage> Storage for Overlay<'a, S> {
+    fn page(&self, p: u32) -> Result<&[u8]> {
+        self.note(p);
+        match self.dirty.get(&p) {
+            Some(b) => Ok(&b[..]),
+            None => self.base.page(p),
+        }
+    }
+    fn page_mut(&mut self, p: u32) -> Result<&mut [u8]> {
+        self.note(p);
+        if !self.dirty.contains_key(&p) {
+            let copy = self.base.page(p)?.to_vec().into_boxed_slice();
+            self.dirty.insert(p, copy);
+        }
+        Ok(&mut self.dirty.get_mut(&p).unwrap()[..])
+    }
+    fn grow(&mut self, _c: u32) -> Result<()> {
+        bail!("probe overlay cannot grow")
+    }
+    fn page_count(&self) -> u32 {
+        self.base.page_count()
+    }
+    fn sync(&self) -> Result<()> {
+        Ok(())
+    }
+}
+
+// ---------------------------------------------------------------------------------------------
+// history description
+
+#[derive(Clone, Copy, PartialEq, Eq, Debug)]
+enum Op {
+    /// caller gives page back
+    Rel(u32),
+    /// caller asks for a page
+    Alloc,
+    /// drop the Freelist value and rebuild it from (head_page, free_count), as a file header would
+    Reopen,
+    /// quiescent point: free_count() vs. drain on a copy
+    Probe,
+    /// emulate `k` releases of the pages `first..first+k` into the (non-full) head trunk by
+    /// writing the documented trunk layout directly (validated against real releases at start-up);
+    /// lets short (Miri) histories reach multi-trunk states
+    Fill(u32, u32),
+}
+
+#[derive(Clone, Debug)]
+struct Env {
+    pages: u32,
+    /// 0 = page 0 all zero; t > 0 = page 0 carries a TurDB table file header with table_id = t
+    page0_table_id: u32,
+    /// caller overwrites the start of every page it is handed (legitimate: it owns them)
+    scribble: bool,
+    /// 0 = SparseStore, 1 = crate::memstore::MemStore
+    backing: u8,
+}
+
+impl Env {
+    fn json(&self) -> Value {
+        json!({"pages": self.pages, "page0_table_id": self.page0_table_id, "scribble": self.scribble, "backing": if self.backing == 0 { "sparse" } else { "memstore" }})
+    }
+}
+
+fn ops_to_string(ops: &[Op]) -> String {
+    let mut s = String::with_capacity(ops.len() * 4);
+    for (i, op) in ops.iter().enumerate() {
+        if i > 0 {
+            s.push(' ');
+        }
+        match op {
+            Op::Rel(p) => {
+                s.push('R');
+                s.push_str(&p.to_string());
+            }
+            Op::Alloc => s.push('A'),
+            Op::Reopen => s.push('O'),
+            Op::Probe => s.push('P'),
+            Op::Fill(a, k) => s.push_str(&format!("F{}+{}", a, k)),
+        }
+    }
+    s
+}
+
+fn ops_from_string(s: &str) -> Option<Vec<Op>> {
+    let mut v = vec![];
+    for t in s.split_whitespace() {
+        let op = match t.as_bytes()[0] {
+            b'R' => Op::Rel(t[1..].parse().ok()?),
+            b'A' => Op::Alloc,
+            b'O' => Op::Reopen,
+            b'P' => Op::Probe,
+            b'F' => {
+                let mut it = t[1..].split('+');
+                Op::Fill(it.next()?.parse().ok()?, it.next()?.parse().ok()?)
+            }
+            _ => return None,
+        };
+        v.push(op);
+    }
+    Some(v)
+}
+
+#[derive(Clone, Debug)]
+struct Viol {
+    assertion: &'static str,
+    sig: String,
+    info: Value,
+    fatal: bool,
+    /// number of ops executed when it was observed (prefix length that reproduces it)
+    at: usize,
+}
+
+const HELD: u8 = 1; // owned by the caller, not obtained from allocate() since it last owned it
+const FREE: u8 = 2; // released, not handed out since
+const HANDED: u8 = 3; // owned by the caller, obtained from allocate()
+
+#[derive(Default, Clone, Debug)]
+struct Stats {
+    releases: u64,
+    allocs_some: u64,
+    allocs_none: u64,
+    reopens: u64,
+    probes: u64,
+    fills: u64,
+    chain_events: u64,
+    hops: u64,
+    max_chain: u32,
+    max_free: usize,
+    max_leaked: usize,
+    skipped: u64,
+}
+
+struct Hist<S: Storage> {
+    env: Env,
+    store: Tracked<S>,
+    fl: Freelist,
+    state: Vec<u8>,
+    /// page became the head trunk when it was released (observed through head_page()) and has not
+    /// been handed out since
+    trunk_seen: Vec<bool>,
+    held: Vec<u32>,
+    /// the model's free pages as a list (a page is in `held` or in `freev`; `pos` indexes either)
+    freev: Vec<u32>,
+    pos: Vec<u32>,
+    n_free: usize,
+    ops: Vec<Op>,
+    stamp: Vec<u32>,
+    epoch: u32,
+    st: Stats,
+    viols: Vec<Viol>,
+    dead: bool,
+    /// release/allocate calls since the last probe (probe cost is amortised against it)
+    credit: usize,
+}
+
+fn mix(a: u64, b: u64) -> u64 {
+    let mut z = a.wrapping_mul(0x9E3779B97F4A7C15) ^ b.wrapping_add(0xD1B54A32D192ED03);
+    z = (z ^ (z >> 30)).wrapping_mul(0xBF58476D1CE4E5B9);
+    z = (z ^ (z >> 27)).wrapping_mul(0x94D049BB133111EB);
+    z ^ (z >> 31)
+}
+
+/// TurDB table file header bytes (layout of `TableFileHeader`, checked with its own parser).
+fn table_header_bytes(table_id: u32) -> Vec<u8> {
+    let mut b = vec![0u8; 128];
+    b[..16].copy_from_slice(&TABLE_MAGIC[..]);
+    b[16..24].copy_from_slice(&(table_id as u64).to_le_bytes());
+    b[24..32].copy_from_slice(&1234u64.to_le_bytes()); // row_count
+    b[32..36].copy_from_slice(&1u32.to_le_bytes()); // root_page
+    b[36..40].copy_from_slice(&3u32.to_le_bytes()); // column_count
+    b[40..48].copy_from_slice(&0u64.to_le_bytes()); // first_free_page
+    b[48..56].copy_from_slice(&1235u64.to_le_bytes()); // auto_increment
+    b
+}
+
+fn table_header_ok() -> bool {
+    let b = table_header_bytes(7);
+    match TableFileHeader::from_bytes(&b) {
+        Ok(h) => h.table_id() == 7 && h.root_page() == 1 && h.row_count() == 1234,
+        Err(_) => false,
+    }
+}
+
+impl<S: Storage> Hist<S> {
+    fn new(env: Env, inner: S) -> Self {
+        let n = env.pages as usize;
+        let mut store = Tracked::new(inner);
+        if env.page0_table_id != 0 {
+            let b = table_header_bytes(env.page0_table_id);
+            store.inner.page_mut(0).unwrap()[..128].copy_from_slice(&b);
+        }
+        let mut h = Hist {
+            env,
+            store,
+            fl: Freelist::new(),
+            state: vec![HELD; n],
+            trunk_seen: vec![false; n],
+            held: Vec::with_capacity(n),
+            freev: Vec::new(),
+            pos: vec![u32::MAX; n],
+            n_free: 0,
+            ops: vec![],
+            stamp: vec![0; n],
+            epoch: 0,
+            st: Stats::default(),
+            viols: vec![],
+            dead: false,
+            credit: 0,
+        };
+        h.state[0] = 0;
+        for p in 1..n as u32 {
+            h.pos[p as usize] = h.held.len() as u32;
+            h.held.push(p);
+        }
+        if h.env.scribble && n <= 256 {
+            // the caller's pages hold the caller's data from the start
+            for p in 1..n as u32 {
+                h.scribble(p);
+            }
+        }
+        h
+    }
+
+    fn hold(&mut self, p: u32) {
+        self.pos[p as usize] = self.held.len() as u32;
+        self.held.push(p);
+    }
+
+    /// held -> free
+    fn unhold(&mut self, p: u32) {
+        let i = self.pos[p as usize] as usize;
+        let last = *self.held.last().unwrap();
+        self.held.swap_remove(i);
+        if last != p {
+            self.pos[last as usize] = i as u32;
+        }
+        self.pos[p as usize] = self.freev.len() as u32;
+        self.freev.push(p);
+    }
+
+    /// free -> held
+    fn unfree(&mut self, p: u32) {
+        let i = self.pos[p as usize] as usize;
+        let last = *self.freev.last().unwrap();
+        self.freev.swap_remove(i);
+        if last != p {
+            self.pos[last as usize] = i as u32;
+        }
+        self.hold(p);
+    }
+
+    /// caller data in a page the caller owns: plausible page numbers everywhere, and a non-zero
+    /// word where a trunk would keep its entry count (a zero there could make a freelist that
+    /// wrongly follows caller pages recurse without bound, which would take the harness down)
+    fn scribble(&mut self, p: u32) {
+        let n = self.env.pages as u64;
+        let salt = self.ops.len() as u64;
+        let page = self.store.inner.page_mut(p).unwrap();
+        for i in 0..64usize {
+            let r = mix(p as u64 * 64 + i as u64, salt);
+            let v: u32 = match r % 8 {
+                0 => (r >> 8) as u32,
+                1 => n as u32 + ((r >> 8) % 5) as u32,
+                _ => ((r >> 8) % n) as u32,
+            };
+            page[i * 4..i * 4 + 4].copy_from_slice(&v.to_le_bytes());
+        }
+        let r = mix(p as u64, salt ^ 0x55);
+        let cnt: u32 = if r % 16 == 0 { 5000 + (r >> 8) as u32 % 100 } else { 1 + ((r >> 8) % 40) as u32 };
+        page[HDR + 4..HDR + 8].copy_from_slice(&cnt.to_le_bytes());
+    }
+
+    fn cause_suffix(&self, probe_page0: u64) -> &'static str {
+        // page 0 is harmless to read as a trunk only while it is all zero
+        if self.env.page0_table_id != 0 && self.store.page0.get() + probe_page0 > 0 {
+            "page0_sentinel_read_as_trunk"
+        } else {
+            "freelist_pages_only"
+        }
+    }
+
+    fn viol(&mut self, assertion: &'static str, sig: String, info: Value, fatal: bool) {
+        let at = self.ops.len();
+        if fatal {
+            self.dead = true;
+        }
+        self.viols.push(Viol { assertion, sig, info, fatal, at });
+    }
+
+    /// trunk chain as the documented on-page layout describes it (for statistics/diagnosis only)
+    fn walk_chain(&self) -> (u32, u64, bool) {
+        let mut trunks = 0u32;
+        let mut entries = 0u64;
+        let mut p = self.fl.head_page();
+        let n = self.env.pages;
+        let mut clean = true;
+        while p != 0 {
+            if p >= n || trunks > n {
+                clean = false;
+                break;
+            }
+            let pg = match self.store.inner.page(p) {
+                Ok(x) => x,
+                Err(_) => {
+                    clean = false;
+                    break;
+                }
+            };
+            let next = u32::from_le_bytes(pg[HDR..HDR + 4].try_into().unwrap());
+            let cnt = u32::from_le_bytes(pg[HDR + 4..HDR + 8].try_into().unwrap());
+            trunks += 1;
+            entries += cnt as u64;
+            p = next;
+        }
+        (trunks, entries, clean)
+    }
+
+    /// check one page returned by allocate() (live or on the probe copy) against the model
+    fn check_handout(&mut self, p: u32, probe: bool, probe_page0: u64) -> bool {
+        let n = self.env.pages;
+        let cause = self.cause_suffix(probe_page0);
+        let ctxinfo = json!({"page": p, "on_probe_copy": probe, "page_count": n, "page0_accesses": self.store.page0.get() + probe_page0});
+        if p >= n {
+            self.viol("pages_in_range", format!("C34/pages_in_range/allocate_returned_page_beyond_storage/{}", cause), ctxinfo, true);
+            return false;
+        }
+        let st = self.state[p as usize];
+        let dup_in_probe = probe && self.stamp[p as usize] == self.epoch;
+        if st == HANDED || dup_in_probe {
+            self.viol("no_double_handout", format!("C34/no_double_handout/page_already_handed_out/{}", cause), ctxinfo, true);
+            return false;
+        }
+        if st != FREE {
+            let what = if p == 0 { "page0_returned" } else { "page_never_released" };
+            self.viol("allocated_was_free", format!("C34/allocated_was_free/{}/{}", what, cause), ctxinfo, true);
+            return false;
+        }
+        true
+    }
+
+    fn step(&mut self, op: Op) {
+        if self.dead {
+            return;
+        }
+        match op {
+            Op::Rel(p) => {
+                if p == 0 || p >= self.env.pages || (self.state[p as usize] != HELD && self.state[p as usize] != HANDED) {
+                    self.st.skipped += 1;
+                    return;
+                }
+                self.ops.push(op);
+                self.credit += 1;
+                let before_head = self.fl.head_page();
+                let r = catch(|| self.fl.release(&mut self.store, p));
+                match r {
+                    Err(pm) => {
+                        let site = panic_site(&pm);
+                        self.viol("no_panic", format!("C34/no_panic/release@{}", site), json!({"panic": pm, "page": p}), true);
+                    }
+                    Ok(Err(e)) => {
+                        let cause = self.cause_suffix(0);
+                        self.viol("no_error", format!("C34/no_error/release/{}", cause), json!({"error": e.to_string(), "page": p, "oob_accesses": self.store.oob.get()}), true);
+                    }
+                    Ok(Ok(())) => {
+                        self.st.releases += 1;
+                        self.unhold(p);
+                        self.state[p as usize] = FREE;
+                        self.n_free += 1;
+                        self.st.max_free = self.st.max_free.max(self.n_free);
+                        if self.fl.head_page() == p {
+                            self.trunk_seen[p as usize] = true;
+                            if before_head != 0 {
+                                self.st.chain_events += 1;
+                            }
+                        }
+                    }
+                }
+            }
+            Op::Alloc => {
+                self.ops.push(op);
+                self.credit += 1;
+                let before_head = self.fl.head_page();
+                let r = catch(|| self.fl.allocate(&mut self.store));
+                match r {
+                    Err(pm) => {
+                        let site = panic_site(&pm);
+                        self.viol("no_panic", format!("C34/no_panic/allocate@{}", site), json!({"panic": pm}), true);
+                    }
+                    Ok(Err(e)) => {
+                        let cause = self.cause_suffix(0);
+                        self.viol("no_error", format!("C34/no_error/allocate/{}", cause), json!({"error": e.to_string(), "oob_accesses": self.store.oob.get()}), true);
+                    }
+                    Ok(Ok(None)) => {
+                        self.st.allocs_none += 1;
+                    }
+                    Ok(Ok(Some(p))) => {
+                        if self.check_handout(p, false, 0) {
+                            self.st.allocs_some += 1;
+                            self.state[p as usize] = HANDED;
+                            self.trunk_seen[p as usize] = false;
+                            self.n_free -= 1;
+                            self.unfree(p);
+                            if self.env.scribble {
+                                self.scribble(p);
+                            }
+                            let h = self.fl.head_page();
+                            if before_head != 0 && h != 0 && h != before_head {
+                                self.st.hops += 1;
+                            }
+                        }
+                    }
+                }
+            }
+            Op::Reopen => {
+                self.ops.push(op);
+                self.st.reopens += 1;
+                let (h, c) = (self.fl.head_page(), self.fl.free_count());
+                if self.st.reopens % 2 == 0 {
+                    self.fl = Freelist::with_head(h, c);
+                } else {
+                    let mut f = Freelist::new();
+                    f.set_head(h, c);
+                    self.fl = f;
+                }
+            }
+            Op::Fill(first, k) => {
+                // only valid on a non-full head trunk with room for k entries, over held pages
+                let head = self.fl.head_page();
+                if head == 0 || k == 0 || first == 0 || first as u64 + k as u64 > self.env.pages as u64 {
+                    self.st.skipped += 1;
+                    return;
+                }
+                let cnt = {
+                    let pg = self.store.inner.page(head).unwrap();
+                    u32::from_le_bytes(pg[HDR + 4..HDR + 8].try_into().unwrap())
+                };
+                if cnt as usize + k as usize > TRUNK_MAX_ENTRIES || (first..first + k).any(|p| self.state[p as usize] != HELD && self.state[p as usize] != HANDED) {
+                    self.st.skipped += 1;
+                    return;
+                }
+                self.ops.push(op);
+                self.st.fills += 1;
+                {
+                    let pg = self.store.inner.page_mut(head).unwrap();
+                    for i in 0..k {
+                        let off = HDR + 8 + (cnt + i) as usize * 4;
+                        pg[off..off + 4].copy_from_slice(&(first + i).to_le_bytes());
+                    }
+                    pg[HDR + 4..HDR + 8].copy_from_slice(&(cnt + k).to_le_bytes());
+                }
+                let c = self.fl.free_count();
+                self.fl.set_head(head, c + k);
+                for p in first..first + k {
+                    self.unhold(p);
+                    self.state[p as usize] = FREE;
+                }
+                self.n_free += k as usize;
+                self.st.releases += k as u64;
+                self.st.max_free = self.st.max_free.max(self.n_free);
+            }
+            Op::Probe => {
+                self.ops.push(op);
+                self.probe();
+            }
+        }
+    }
+
+    /// a probe costs O(free pages): take it only when enough operations have been executed since
+    /// the last one to keep the total probe work within a small multiple of the op work
+    fn probe_if_affordable(&mut self) {
+        if self.credit * 6 >= self.n_free {
+            self.step(Op::Probe);
+        }
+    }
+
+    fn probe(&mut self) {
+        self.credit = 0;
+        self.st.probes += 1;
+        let reported = self.fl.free_count();
+        let head = self.fl.head_page();
+        self.epoch += 1;
+        let cap = reported as usize + self.n_free + 8;
+        let mut drained: usize = 0;
+        let mut terminated = false;
+        let mut pending: Option<(&'static str, String, Value)> = None;
+        let mut handed: Vec<u32> = vec![];
+        let (p0, _oob) = {
+            let mut ov = Overlay::new(&self.store.inner);
+            let mut twin = Freelist::with_head(head, reported);
+            for _ in 0..=cap {
+                let r = catch(|| twin.allocate(&mut ov));
+                match r {
+                    Err(pm) => {
+                        let site = panic_site(&pm);
+                        pending = Some(("no_panic", format!("C34/no_panic/allocate@{}", site), json!({"panic": pm, "on_probe_copy": true})));
+                        break;
+                    }
+                    Ok(Err(e)) => {
+                        pending = Some(("no_error", "C34/no_error/allocate/".to_string(), json!({"error": e.to_string(), "on_probe_copy": true, "oob_accesses": ov.oob.get()})));
+                        break;
+                    }
+                    Ok(Ok(None)) => {
+                        terminated = true;
+                        break;
+                    }
+                    Ok(Ok(Some(p))) => {
+                        handed.push(p);
+                    }
+                }
+            }
+            (ov.page0.get(), ov.oob.get())
+        };
+        for p in handed {
+            if !self.check_handout(p, true, p0) {
+                return;
+            }
+            self.stamp[p as usize] = self.epoch;
+            drained += 1;
+        }
+        if let Some((a, mut sig, info)) = pending {
+            if sig.ends_with('/') {
+                sig.push_str(self.cause_suffix(p0));
+            }
+            self.viol(a, sig, info, true);
+            return;
+        }
+        if !terminated {
+            self.viol(
+                "free_count_matches",
+                "C34/free_count_matches/drain_does_not_terminate".into(),
+                json!({"reported_free_count": reported, "model_free": self.n_free, "allocations_made": drained}),
+                true,
+            );
+            return;
+        }
+        let (trunks, entries, clean) = self.walk_chain();
+        if clean && (self.env.page0_table_id == 0 || self.store.page0.get() == 0) {
+            self.st.max_chain = self.st.max_chain.max(trunks);
+        }
+        if reported as usize != drained {
+            // which free pages could not be obtained?
+            let mut missing: Vec<u32> = vec![];
+            let mut missing_all_trunks = true;
+            let mut n_missing = 0usize;
+            for &p in self.freev.iter() {
+                if self.stamp[p as usize] != self.epoch {
+                    n_missing += 1;
+                    if !self.trunk_seen[p as usize] {
+                        missing_all_trunks = false;
+                    }
+                    missing.push(p);
+                }
+            }
+            missing.sort();
+            missing.truncate(12);
+            let over = reported as usize > drained;
+            let cause = if over && n_missing > 0 && missing_all_trunks && reported as usize - drained <= n_missing {
+                "trunk_page_not_allocatable"
+            } else if over {
+                "overcount_other"
+            } else {
+                "undercount"
+            };
+            self.viol(
+                "free_count_matches",
+                format!("C34/free_count_matches/{}", cause),
+                json!({
+                    "reported_free_count": reported,
+                    "successful_allocations_until_none": drained,
+                    "model_free_pages": self.n_free,
+                    "head_page": head,
+                    "chain_trunks": trunks,
+                    "chain_entries": entries,
+                    "free_pages_not_obtainable": missing,
+                    "free_pages_not_obtainable_count": n_missing,
+                    "all_of_them_were_trunk_pages": missing_all_trunks,
+                    "probe_read_page0": p0 > 0,
+                }),
+                false,
+            );
+        } else {
+            self.st.max_leaked = self.st.max_leaked.max(self.n_free - drained);
+        }
+    }
+}
+
+// ---------------------------------------------------------------------------------------------
+// executing a fixed op list (replay, shrinking)
+
+fn exec_ops(env: &Env, ops: &[Op]) -> (Vec<Viol>, Stats, Vec<Op>) {
+    fn go<S: Storage>(mut h: Hist<S>, ops: &[Op]) -> (Vec<Viol>, Stats, Vec<Op>) {
+        for op in ops {
+            h.step(*op);
+            if h.dead {
+                break;
+            }
+        }
+        (h.viols, h.st, h.ops)
+    }
+    if env.backing == 0 {
+        go(Hist::new(env.clone(), SparseStore::new(env.pages)), ops)
+    } else {
+        go(Hist::new(env.clone(), MemStore::new(env.pages)), ops)
+    }
+}
+
+fn reproduces(env: &Env, ops: &[Op], sig: &str) -> bool {
+    exec_ops(env, ops).0.iter().any(|v| v.sig == sig)
+}
+
+/// ddmin over the op list (bounded), keeping the same signature
+fn shrink(env: &Env, ops: &[Op], sig: &str, budget: usize) -> Vec<Op> {
+    let mut cur: Vec<Op> = ops.to_vec();
+    let mut used = 0usize;
+    if !reproduces(env, &cur, sig) {
+        return cur;
+    }
+    let mut n = 2usize;
+    while cur.len() >= 2 && used < budget {
+        let chunk = (cur.len() + n - 1) / n;
+        let mut reduced = false;
+        let mut i = 0;
+        while i * chunk < cur.len() && used < budget {
+            let lo = i * chunk;
+            let hi = (lo + chunk).min(cur.len());
+            let mut cand = Vec::with_capacity(cur.len() - (hi - lo) + 1);
+            cand.extend_from_slice(&cur[..lo]);
+            cand.extend_from_slice(&cur[hi..]);
+            // the violation is observed at a probe or an allocate: keep a final probe
+            used += 1;
+            if !cand.is_empty() && reproduces(env, &cand, sig) {
+                cur = cand;
+                n = n.saturating_sub(1).max(2);
+                reduced = true;
+                break;
+            }
+            i += 1;
+        }
+        if !reduced {
+            if n >= cur.len() {
+                break;
+            }
+            n = (n * 2).min(cur.len());
+        }
+    }
+    cur
+}
+
+// ---------------------------------------------------------------------------------------------
+// generators (online: the next op depends on what the caller currently holds)
+
+#[derive(Clone, Copy, Debug)]
+enum Order {
+    Random,
+    Lowest,
+    Highest,
+}
+
+fn pick_release<S: Storage>(h: &Hist<S>, rng: &mut Rng, order: Order) -> Option<u32> {
+    if h.held.is_empty() {
+        return None;
+    }
+    match order {
+        Order::Random => Some(h.held[rng.below(h.held.len() as u64) as usize]),
+        Order::Lowest => h.held.iter().copied().min(),
+        Order::Highest => h.held.iter().copied().max(),
+    }
+}
+
+/// drive towards a sequence of target free levels with a noisy release/allocate mix
+fn gen_phased<S: Storage>(h: &mut Hist<S>, rng: &mut Rng, max_ops: usize, probe_every: u64, targets: &[usize]) {
+    let usable = h.env.pages as usize - 1;
+    let mut ops = 0usize;
+    for &t in targets {
+        let t = t.min(usable);
+        let noise = *rng.pick(&[0u64, 0, 1, 3, 10]);
+        let mut guard = 0usize;
+        while h.n_free != t && ops < max_ops && !h.dead {
+            guard += 1;
+            if guard > 4 * usable + 64 {
+                break;
+            }
+            let want_release = h.n_free < t;
+            let do_release = if rng.below(100) < noise * 4 { !want_release } else { want_release };
+            if do_release {
+                match pick_release(h, rng, Order::Random) {
+                    Some(p) => h.step(Op::Rel(p)),
+                    None => h.step(Op::Alloc),
+                }
+            } else {
+                let before = h.st.allocs_none;
+                h.step(Op::Alloc);
+                if h.st.allocs_none > before && !want_release {
+                    // the freelist says it is empty although the model is not: the probe reports
+                    // it; the level cannot be reached by allocating
+                    h.step(Op::Probe);
+                    break;
+                }
+            }
+            ops += 1;
+            if rng.below(probe_every) == 0 {
+                h.probe_if_affordable();
+            }
+            if rng.below(probe_every * 3) == 0 {
+                h.step(Op::Reopen);
+            }
+        }
+        h.step(Op::Probe);
+        if rng.chance(1, 3) {
+            h.step(Op::Reopen);
+            h.step(Op::Probe);
+        }
+        if ops >= max_ops || h.dead {
+            break;
+        }
+    }
+}
+
+/// free levels at which trunk pages fill up / empty: k*(MAX+1) + d
+fn boundary_levels(rng: &mut Rng, max_trunks: usize) -> Vec<usize> {
+    let per = TRUNK_MAX_ENTRIES + 1;
+    let mut v = vec![];
+    let n = rng.usize(3, 9);
+    for _ in 0..n {
+        let k = rng.usize(0, max_trunks);
+        let d = rng.range(-3, 3);
+        let base = (k * per) as i64 + d;
+        v.push(base.max(0) as usize);
+        if rng.chance(1, 3) {
+            v.push(0);
+        }
+        if rng.chance(1, 3) {
+            v.push(rng.usize(0, max_trunks * per));
+        }
+    }
+    v.push(0);
+    v
+}
+
+// ---------------------------------------------------------------------------------------------
+// run
+
+struct Runner<'a> {
+    ctx: &'a mut Ctx,
+    shrunk: HashSet<String>,
+    histories: u64,
+    multi_trunk: u64,
+    three_trunk: u64,
+    violating_histories: u64,
+    agg: Stats,
+    sampled: usize,
+}
+
+impl<'a> Runner<'a> {
+    fn finish_history<S: Storage>(&mut self, h: Hist<S>, label: &str) {
+        self.histories += 1;
+        let st = h.st.clone();
+        self.ctx.evals(st.releases + st.allocs_some + st.allocs_none);
+        self.agg.releases += st.releases;
+        self.agg.allocs_some += st.allocs_some;
+        self.agg.allocs_none += st.allocs_none;
+        self.agg.reopens += st.reopens;
+        self.agg.probes += st.probes;
+        self.agg.fills += st.fills;
+        self.agg.chain_events += st.chain_events;
+        self.agg.hops += st.hops;
+        self.agg.max_chain = self.agg.max_chain.max(st.max_chain);
+        self.agg.max_free = self.agg.max_free.max(st.max_free);
+        self.agg.max_leaked = self.agg.max_leaked.max(st.max_leaked);
+        if st.max_chain >= 2 {
+            self.multi_trunk += 1;
+            // structural hash of the history: its op list
+            let s = ops_to_string(&h.ops);
+            self.ctx.nontrivial(fnv(s.as_bytes()));
+        }
+        if st.max_chain >= 3 {
+            self.three_trunk += 1;
+        }
+        if self.sampled < 4 && (st.max_chain >= 3 || (self.sampled < 2 && st.probes > 3 && st.allocs_some > 0)) {
+            self.sampled += 1;
+            let s = ops_to_string(&h.ops);
+            let head: String = s.chars().take(160).collect();
+            self.ctx.sample(json!({"kind": label, "env": h.env.json(), "ops_executed": h.ops.len(), "ops_prefix": head, "releases": st.releases, "allocations": st.allocs_some, "allocate_none": st.allocs_none, "reopens": st.reopens, "probes": st.probes, "max_trunks_in_chain": st.max_chain, "max_free_pages": st.max_free}));
+        }
+        if h.viols.is_empty() {
+            return;
+        }
+        self.violating_histories += 1;
+        let mut seen_here: HashSet<String> = HashSet::new();
+        for v in h.viols.iter() {
+            if !seen_here.insert(v.sig.clone()) {
+                // one per signature and history is enough to count
+                continue;
+            }
+            let known = self.ctx.is_known(&v.sig).is_some();
+            if known || self.shrunk.contains(&v.sig) {
+                self.ctx.violation(v.assertion, &v.sig, json!({"history": label, "observation": v.info}));
+                continue;
+            }
+            self.shrunk.insert(v.sig.clone());
+            let prefix = &h.ops[..v.at.min(h.ops.len())];
+            let small = shrink(&h.env, prefix, &v.sig, 300);
+            let (viols2, _, executed) = exec_ops(&h.env, &small);
+            let info2 = viols2.iter().find(|x| x.sig == v.sig).map(|x| x.info.clone()).unwrap_or(Value::Null);
+            let detail = json!({
+                "history": label,
+                "env": h.env.json(),
+                "ops": ops_to_string(&executed),
+                "ops_len": executed.len(),
+                "ops_legend": "Rn = release(page n), A = allocate(), O = rebuild Freelist from (head_page, free_count), P = probe (free_count vs drain on a copy), Fa+k = k releases of pages a.. emulated by writing the documented trunk layout",
+                "observation": info2,
+                "unshrunk_len": prefix.len(),
+                "unshrunk_observation": v.info,
+                "fatal_for_history": v.fatal,
+            });
+            self.ctx.violation(v.assertion, &v.sig, detail);
+        }
+    }
+}
+
+fn mk_env(rng: &mut Rng, pages: u32, allow_hostile_page0: bool, backing: u8) -> Env {
+    let hostile = allow_hostile_page0 && rng.chance(1, 3);
+    Env {
+        pages,
+        page0_table_id: if hostile { 1 + rng.below((pages as u64 - 1).min(40)) as u32 } else { 0 },
+        scribble: rng.chance(1, 2) && pages <= 4096,
+        backing,
+    }
+}
+
+/// `Fill` must be indistinguishable from real releases: same head, count and trunk bytes
+fn fill_is_faithful() -> bool {
+    let k = 700u32;
+    let env = Env { pages: k + 10, page0_table_id: 0, scribble: false, backing: 0 };
+    let mut a = Hist::new(env.clone(), SparseStore::new(env.pages));
+    let mut b = Hist::new(env.clone(), SparseStore::new(env.pages));
+    a.step(Op::Rel(1));
+    b.step(Op::Rel(1));
+    a.step(Op::Rel(2));
+    b.step(Op::Rel(2));
+    for p in 3..3 + k {
+        a.step(Op::Rel(p));
+    }
+    b.step(Op::Fill(3, k));
+    if a.fl.head_page() != b.fl.head_page() || a.fl.free_count() != b.fl.free_count() || b.st.fills != 1 {
+        return false;
+    }
+    let pa = a.store.inner.page(1).unwrap();
+    let pb = b.store.inner.page(1).unwrap();
+    pa == pb && a.store.inner.pages.len() == b.store.inner.pages.len()
+}
+
+pub fn run(a: &Args) -> i32 {
+    let miri = cfg!(miri);
+    let mut ctx = Ctx::new(
+        "C34",
+        &a.tier,
+        a.seed,
+        "exploration",
+        "histories of release(p)/allocate()/rebuild-from-(head_page,free_count) on the real Freelist over an in-memory Storage, against a per-page model (held/free/handed out). Generators: every sequence over {release, allocate, reopen} up to a length bound on 6 pages; random mixes on 4..160 pages probed after every op; phased histories steering the number of free pages through k*(TRUNK_MAX_ENTRIES+1)+d for k up to 4 (trunk pages filling, chaining and emptying), random release order, allocate-until-empty, reopen at random points. A case = one release/allocate with its after-op assertions; quiescent probes compare free_count() with the number of successful allocate() calls until None on a copy-on-write copy. distinct_nontrivial = distinct histories (hash of the executed op list) whose trunk chain reached >= 2 trunk pages (measured by walking the documented on-page layout)",
+    );
+    let mut rng = Rng::derive(a.seed, 34);
+    let quick = ctx.quick();
+    let per = TRUNK_MAX_ENTRIES + 1;
+    ctx.extra.insert("trunk_max_entries".into(), json!(TRUNK_MAX_ENTRIES));
+
+    // replay of one stored witness
+    if let Some(path) = &a.replay {
+        let txt = std::fs::read_to_string(path).expect("replay file");
+        let v: Value = serde_json::from_str(&txt).expect("replay json");
+        let d = &v["detail"];
+        let env = Env {
+            pages: d["env"]["pages"].as_u64().unwrap_or(8) as u32,
+            page0_table_id: d["env"]["page0_table_id"].as_u64().unwrap_or(0) as u32,
+            scribble: d["env"]["scribble"].as_bool().unwrap_or(false),
+            backing: if d["env"]["backing"].as_str() == Some("memstore") { 1 } else { 0 },
+        };
+        let ops = ops_from_string(d["ops"].as_str().unwrap_or("")).expect("ops");
+        let (viols, st, executed) = exec_ops(&env, &ops);
+        ctx.evals(st.releases + st.allocs_some + st.allocs_none);
+        ctx.nontrivial(fnv(ops_to_string(&executed).as_bytes()));
+        ctx.nontrivial(1);
+        ctx.sample(json!({"replayed": path, "ops": executed.len()}));
+        for x in viols {
+            ctx.violation(x.assertion, &x.sig, json!({"env": env.json(), "ops": ops_to_string(&executed), "observation": x.info}));
+        }
+        return ctx.finish();
+    }
+
+    let hdr_ok = table_header_ok();
+    if !hdr_ok {
+        ctx.assumptions.push("the hand-built table file header for page 0 was not accepted by TableFileHeader::from_bytes; histories with a file header in page 0 were not generated".into());
+    }
+    let fill_ok = fill_is_faithful();
+    ctx.extra.insert("fill_emulation_validated".into(), json!(fill_ok));
+
+    let mut r = Runner { ctx: &mut ctx, shrunk: HashSet::new(), histories: 0, multi_trunk: 0, three_trunk: 0, violating_histories: 0, agg: Stats::default(), sampled: 0 };
+
+    // 1. small-scope exhaustive: every word over {R, A, O} up to length L, 6 pages, probe after every op
+    let max_len = if miri { 4 } else if quick { 9 } else { 11 };
+    for len in 1..=max_len {
+        let total = 3u64.pow(len as u32);
+        for code in 0..total {
+            let order = match (code + len as u64) % 3 {
+                0 => Order::Lowest,
+                1 => Order::Highest,
+                _ => Order::Random,
+            };
+            let env = Env { pages: 6, page0_table_id: if hdr_ok && code % 4 == 3 { 1 + (code % 5) as u32 } else { 0 }, scribble: code % 2 == 1, backing: if code % 7 == 0 { 1 } else { 0 } };
+            macro_rules! body {
+                ($store:expr) => {{
+                    let mut h = Hist::new(env.clone(), $store);
+                    let mut c = code;
+                    for _ in 0..len {
+                        match c % 3 {
+                            0 => match pick_release(&h, &mut rng, order) {
+                                Some(p) => h.step(Op::Rel(p)),
+                                None => h.step(Op::Alloc),
+                            },
+                            1 => h.step(Op::Alloc),
+                            _ => h.step(Op::Reopen),
+                        }
+                        c /= 3;
+                        h.step(Op::Probe);
+                    }
+                    r.finish_history(h, "exhaustive_small");
+                }};
+            }
+            if env.backing == 1 {
+                body!(MemStore::new(env.pages))
+            } else {
+                body!(SparseStore::new(env.pages))
+            }
+        }
+    }
+
+    let t1 = r.ctx.elapsed();
+    // 2. random mixes on small page sets, probe after every op
+    let n_small = if miri { 6 } else if quick { 6000 } else { 120_000 };
+    for i in 0..n_small {
+        let pages = rng.usize(4, if miri { 24 } else { 160 }) as u32;
+        let backing = if i % 5 == 0 { 1 } else { 0 };
+        let env = mk_env(&mut rng, pages, hdr_ok, backing);
+        let nops = rng.usize(5, if miri { 40 } else { 300 });
+        let bias = rng.below(100);
+        macro_rules! body {
+            ($store:expr) => {{
+                let mut h = Hist::new(env.clone(), $store);
+                let mut drift = bias;
+                for _ in 0..nops {
+                    if rng.below(40) == 0 {
+                        drift = rng.below(100);
+                    }
+                    let x = rng.below(100);
+                    if x < 3 {
+                        h.step(Op::Reopen);
+                    } else if rng.below(100) < drift {
+                        match pick_release(&h, &mut rng, Order::Random) {
+                            Some(p) => h.step(Op::Rel(p)),
+                            None => h.step(Op::Alloc),
+                        }
+                    } else {
+                        h.step(Op::Alloc);
+                    }
+                    h.step(Op::Probe);
+                    if h.dead {
+                        break;
+                    }
+                }
+                // allocate until empty, live
+                let mut guard = 0;
+                while !h.dead && guard < pages + 2 {
+                    guard += 1;
+                    let before = h.st.allocs_none;
+                    h.step(Op::Alloc);
+                    if h.st.allocs_none > before {
+                        break;
+                    }
+                }
+                h.step(Op::Probe);
+                r.finish_history(h, "random_small");
+            }};
+        }
+        if backing == 1 {
+            body!(MemStore::new(pages))
+        } else {
+            body!(SparseStore::new(pages))
+        }
+    }
+
+    let t2 = r.ctx.elapsed();
+    // 3. multi-trunk histories with real releases (native only: >= 3 trunks need > 8182 releases)
+    if !miri {
+        let n_long = if quick { 60 } else { 1200 };
+        for i in 0..n_long {
+            let max_trunks = if i % 4 == 0 { 4 } else { 3 };
+            let pages = (max_trunks * per + rng.usize(8, 300)) as u32;
+            let mut env = mk_env(&mut rng, pages, hdr_ok, 0);
+            env.scribble = i % 6 == 0;
+            let mut targets = vec![];
+            match i % 5 {
+                // straight burst past three trunks, then allocate until empty
+                0 => {
+                    targets.push(3 * per + rng.usize(0, 5));
+                    targets.push(0);
+                }
+                // release everything, allocate everything, twice
+                1 => {
+                    targets.push(pages as usize - 1);
+                    targets.push(0);
+                    targets.push(2 * per + 1);
+                    targets.push(0);
+                }
+                _ => targets = boundary_levels(&mut rng, max_trunks),
+            }
+            let mut h = Hist::new(env, SparseStore::new(pages));
+            let probe_every = *rng.pick(&[20u64, 300, 2000]);
+            let t0 = std::time::Instant::now();
+            gen_phased(&mut h, &mut rng, if quick { 60_000 } else { 120_000 }, probe_every, &targets);
+            if std::env::var("C34_PROF").is_ok() {
+                eprintln!("PROF i={} pages={} scribble={} ops={} probes={} viols={} targets={:?} pe={} gen={:.3}s", i, pages, h.env.scribble, h.ops.len(), h.st.probes, h.viols.len(), targets, probe_every, t0.elapsed().as_secs_f64());
+            }
+            r.finish_history(h, "multi_trunk_real_releases");
+        }
+    }
+
+    let t3 = r.ctx.elapsed();
+    // 4. multi-trunk histories reached with Fill (short op lists; the only multi-trunk route under Miri)
+    if fill_ok {
+        let n_fill = if miri { 3 } else if quick { 300 } else { 6000 };
+        for _ in 0..n_fill {
+            let trunks = if miri { 2 } else { rng.usize(2, 4) };
+            let pages = (trunks * per + rng.usize(8, 64)) as u32;
+            let env = Env { pages, page0_table_id: if hdr_ok && rng.chance(1, 4) { 1 + rng.below(30) as u32 } else { 0 }, scribble: false, backing: 0 };
+            let mut h = Hist::new(env, SparseStore::new(pages));
+            // lay down `trunks` trunk pages: each real release of a trunk page + one real entry,
+            // then Fill to d entries short of full, then real releases across the boundary
+            let mut next = 1u32;
+            let mut budget = if miri { 260usize } else { rng.usize(50, 1500) };
+            for _t in 0..trunks {
+                if h.dead {
+                    break;
+                }
+                let short = rng.usize(0, 6) as u32;
+                h.step(Op::Rel(next)); // becomes a trunk (head == 0 or head full)
+                next += 1;
+                h.step(Op::Rel(next));
+                next += 1;
+                let k = TRUNK_MAX_ENTRIES as u32 - 1 - short;
+                h.step(Op::Fill(next, k));
+                next += k;
+                for _ in 0..short {
+                    h.step(Op::Rel(next));
+                    next += 1;
+                }
+                h.step(Op::Probe);
+            }
+            // random tail around the boundaries
+            while budget > 0 && !h.dead {
+                budget -= 1;
+                let x = rng.below(100);
+                if x < 4 {
+                    h.step(Op::Reopen);
+                } else if x < 40 {
+                    match pick_release(&h, &mut rng, Order::Random) {
+                        Some(p) => h.step(Op::Rel(p)),
+                        None => h.step(Op::Alloc),
+                    }
+                } else {
+                    h.step(Op::Alloc);
+                }
+                if rng.below(if miri { 40 } else { 12 }) == 0 {
+                    h.probe_if_affordable();
+                }
+            }
+            h.step(Op::Probe);
+            r.finish_history(h, "multi_trunk_fill");
+        }
+    } else {
+        r.ctx.assumptions.push("Fill emulation differs from real releases on this tree; Fill histories skipped".into());
+    }
+
+    let t4 = r.ctx.elapsed();
+    r.ctx.extra.insert("section_wall_s".into(), json!({"exhaustive_small": t1, "random_small": t2 - t1, "multi_trunk_real": t3 - t2, "multi_trunk_fill": t4 - t3}));
+    let (histories, multi, three, violating, agg) = (r.histories, r.multi_trunk, r.three_trunk, r.violating_histories, r.agg.clone());
+    drop(r);
+    ctx.count("histories", histories);
+    ctx.count("histories_chain_ge2_trunks", multi);
+    ctx.count("histories_chain_ge3_trunks", three);
+    ctx.count("histories_with_violation", violating);
+    ctx.count("releases", agg.releases);
+    ctx.count("allocate_some", agg.allocs_some);
+    ctx.count("allocate_none", agg.allocs_none);
+    ctx.count("reopens", agg.reopens);
+    ctx.count("probes", agg.probes);
+    ctx.count("fill_ops", agg.fills);
+    ctx.count("trunk_chained_on_release", agg.chain_events);
+    ctx.count("trunk_hops_on_allocate", agg.hops);
+    ctx.extra.insert("max_trunks_in_chain".into(), json!(agg.max_chain));
+    ctx.extra.insert("max_free_pages".into(), json!(agg.max_free));
+    ctx.extra.insert("max_released_pages_neither_counted_nor_obtainable".into(), json!(agg.max_leaked));
+    if three == 0 && !miri {
+        ctx.inconclusive("no history chained >= 3 trunk pages");
+    }
+    ctx.assumptions.push("callers release only pages they own (never page 0, never a page that is already free); behaviour for other inputs is undocumented and not generated".into());
+    ctx.assumptions.push("free_count is persisted together with head_page (Freelist::with_head needs both; there is no API that recounts the chain)".into());
+    ctx.assumptions.push("released pages that are neither counted nor obtainable (lost after a drain) are reported as a number, not as a violation: the statement only relates free_count to what allocate can return".into());
+    ctx.finish()
 }
